@@ -25,12 +25,13 @@
      packets: non-subtitle/stuffing units, wrong framing codes, short units, uncorrectable addresses; corrected
      single-bit Hamming errors anywhere; rows of other magazines; pages of other magazines in parallel mode or
      with our page number; X/26, X/27, X/30, X/31 of any magazine; X/28 and M/29 that are inert (other magazine,
-     designation code other than 0/4, too short, X/28 format other than 1); time-filling and uncorrectable
+     designation code other than 0/4, too short, X/28 format other than 1) or that keep the default character set
+     designation; time-filling and uncorrectable
      headers; a terminating header of another page (same magazine, or any magazine in serial mode) followed by
      anything but our header; erase pages;
    - totality: for every delivered list of arbitrary bytes and times the reader returns a value (never panics).
    Side conditions (in mux_ok): rows of an instance have distinct numbers; each row is a rowspec_ok structure;
-   X/28 and M/29 packets of the selected magazine that designate a character set are outside the class (the
+   X/28 and M/29 packets of the selected magazine that designate a non-default character set are outside the class (the
    reader then decodes every page with the LAST designation of the stream: see notes/C06.md); parity-failing cells
    are covered by the cell theorems and the correspondence, not by the run-level statement. *)
 From Coq Require Import List ZArith NArith Bool.
@@ -146,6 +147,10 @@ Theorem C06_enhancement_packets : forall fl mag0 pn0 mag pkt payload, 1 <= mag <
   /\ unselected_ok (3, enc_packet fl mag pkt payload) = true.
 Proof. exact enhancement_benign. Qed.
 Print Assumptions C06_enhancement_packets.
+Theorem C06_default_designation_packets : forall fl mag0 pkt dc rest, 1 <= mag0 <= 8 -> pkt = 28 \/ pkt = 29 -> dc = 0 \/ dc = 4 ->
+  neutral_unit mag0 (3, enc_packet fl mag0 pkt (ham84_enc dc :: 0 :: 0 :: 0 :: rest)) = true.
+Proof. exact default_designation_neutral. Qed.
+Print Assumptions C06_default_designation_packets.
 Theorem C06_parallel_mode_pages : forall fl mag0 pn0 mag h, 1 <= mag <= 8 -> mag <> mag0 -> hdr_ok h = true ->
   negb ((h_tens h =? 15) && (h_units h =? 15)) = true -> h_serial h = false ->
   benign mag0 pn0 (hdr_unit fl mag h) = true.
